@@ -206,7 +206,13 @@ def call_fn(geom, Vec, name, A, which, sc, form="k", sreps=()):
         from mouette.utils import maths
         c = complex(float(sc[0]), float(sc[1]))
         n = as_scalar(sc[2], (list(sreps) + ["i"] * 3)[2]) if (list(sreps) + ["i"] * 3)[2] in ("i", "m") else int(sc[2])
-        rs = maths.roots(c, n)
+        nz = int(sc[3]) if len(sc) > 3 else -1          # normalize: 1 True / 0 False / -1 omitted
+        if nz < 0:
+            rs = maths.roots(c, n)
+        elif form == "p":
+            rs = maths.roots(c, n, bool(nz))
+        else:
+            rs = maths.roots(c, n, normalize=bool(nz))
         r, t = cmath.polar(c)
         return ["roots", [[z.real, z.imag, cmath.phase(z)] for z in rs], t, r]
     raise RuntimeError("unknown function " + name)
@@ -410,8 +416,48 @@ def run_prog(prog):
     return out
 
 
+def signatures():
+    """every optional parameter of every function / method / property of the five anchored modules, by inspect"""
+    import inspect
+    import mouette.geometry.aabb as m1
+    import mouette.geometry.geometry as m2
+    import mouette.geometry.rotations as m3
+    import mouette.geometry.vector as m4
+    import mouette.utils.maths as m5
+    out = []
+
+    def params(qual, f):
+        try:
+            sig = inspect.signature(f)
+        except (TypeError, ValueError):
+            return
+        for p_ in sig.parameters.values():
+            if p_.default is not inspect.Parameter.empty:
+                out.append([qual, p_.name, repr(p_.default)[:60]])
+            elif p_.kind in (inspect.Parameter.VAR_KEYWORD,):
+                out.append([qual, "**" + p_.name, "<kwargs>"])
+
+    for mod in (m1, m2, m3, m4, m5):
+        for nm, obj in sorted(vars(mod).items()):
+            if inspect.isfunction(obj) and obj.__module__ == mod.__name__:
+                params(nm, obj)
+            elif inspect.isclass(obj) and obj.__module__ == mod.__name__:
+                for mn, mo in sorted(vars(obj).items()):
+                    f = mo.__func__ if isinstance(mo, (classmethod, staticmethod)) else mo
+                    if isinstance(mo, property):
+                        for acc in (mo.fget, mo.fset):
+                            if acc is not None:
+                                params("%s.%s" % (nm, mn), acc)
+                    elif inspect.isfunction(f):
+                        params("%s.%s" % (nm, mn), f)
+    return out
+
+
 def main():
     payload = json.load(sys.stdin)
+    if payload.get("signatures"):
+        print("@@JSON " + json.dumps({"signatures": signatures()}))
+        return
     res = {"progs": [run_prog(p) for p in payload.get("progs", [])]}
     print("@@JSON " + json.dumps(res))
 
